@@ -5,3 +5,4 @@ prefix bookkeeping of Irc.feedMsg) and the reference server (`Srv`) with the run
 import LimnoriaModel.C10.Coll
 import LimnoriaModel.C10.Bot
 import LimnoriaModel.C10.Srv
+import LimnoriaModel.C10.Batch
